@@ -104,7 +104,7 @@ def observe(rig, res):
     return out
 
 
-def monitor_run(rig, res, obs, verdicts, cert_ok):
+def monitor_run(rig, res, obs, verdicts, cert_ok, cut_frames=()):
     """The property on the implementation's behaviour alone.  -> [(signature, what)]"""
     fails = []
     if res["run_escaped"]:
@@ -134,6 +134,10 @@ def monitor_run(rig, res, obs, verdicts, cert_ok):
             fails.append(("c12:response-not-decodable", "frame %d: response cannot be decoded: %s" % (i, o["decode_error"])))
             continue
         ob = o["obs"]
+        if v is not None and fr in cut_frames:
+            fails.append(("c12:truncated-primitive-decoded",
+                          "frame %d was cut inside the value of a primitive (all enclosing lengths consistent), yet "
+                          "the decoder accepted it%s" % (i, " and the engine was called" if entered else "")))
         if v is None:
             if entered:
                 fails.append(("c12:undecodable-frame-reached-engine", "frame %d cannot be decoded but the engine was called" % i))
@@ -234,6 +238,7 @@ def run_case(rig, snap, case, rnd, st=None, lines=None):
     -> list of (signature, what)"""
     sg = G.SessGen(rnd)
     frames = [bytes.fromhex(f) for f in case["frames"]]
+    cut_frames = set(f for f, l in zip(frames, case.get("labels") or []) if l == "mut:cutvalue")
     stream = b"".join(frames)
     cert = case.get("cert", {"cns": 1, "eku": "client"})
     tls = case.get("tls", True)
@@ -265,7 +270,7 @@ def run_case(rig, snap, case, rnd, st=None, lines=None):
         for o in obs:
             if o["k"] == "handled" and o["frame"] not in verdicts:
                 verdicts[o["frame"]] = S.parse_verdict(o["frame"], rig.default_version)
-        fails += monitor_run(rig, res, obs, verdicts, cert_ok)
+        fails += monitor_run(rig, res, obs, verdicts, cert_ok, cut_frames)
         runs.append((evs, res, obs))
         if lines is not None:
             lines.append((model_line(rig, evs, case, res, obs, verdicts), impl_events(obs), case))
@@ -361,7 +366,7 @@ def gen_cases(rnd, n_streams, n_sweeps):
     for _ in range(3):
         valids.append(sg.valid_big())
     mut_kinds = ["truncate", "inflate", "deflate", "type", "tag", "nest", "count", "version", "version0", "flip",
-                 "trailing", "textlen"]
+                 "trailing", "textlen", "cutvalue", "cutvalue"]
 
     def bad():
         if rnd.random() < 0.12:
@@ -558,6 +563,8 @@ def run(ctx):
         "traces_validated_against_impl": st.runs + nrecv,
         "model_divergences": len(divs) + len(rdiv),
     })
+    ncut = cutvalue_pass(ctx, random.Random(ctx.seed * 7 + 3), 1500 if ctx.tier == "quick" else 30000)
+    ctx.coverage["evaluations"] = ctx.coverage.get("evaluations", 0) + ncut
     if divs or rdiv:
         # a divergence alone is not a violation: look for a failing input around it first
         n0 = len(ctx.violations)
@@ -567,6 +574,44 @@ def run(ctx):
             ctx.report("correspondence:session-model", "session model and KmipSession disagree",
                        {"kind": "correspondence", "broken": "correspondence Drivers/Session.lean vs KmipSession",
                         "divergence": d if isinstance(d, dict) else {"recv": str(d)[:2000]}}, no_input=True)
+
+
+def cutvalue_pass(ctx, rnd, n):
+    """Decoder-only pass with ground truth: frames cut inside the value of a primitive (every enclosing length made
+    consistent) cannot be decoded; every one the real decoder accepts is then served through the session."""
+    sg = G.SessGen(rnd)
+    pool = []
+    for v in G.VERSIONS:
+        for _ in range(12):
+            x = sg.valid(v=v)
+            if x:
+                pool.append(x[0])
+    tried = accepted = 0
+    bad = []
+    for _ in range(n):
+        fr = sg.ch(pool)
+        m, _k = sg.mutate(fr, "cutvalue")
+        if m == fr:
+            continue
+        tried += 1
+        if S.parse_verdict(m, (1, 2)) is not None:
+            accepted += 1
+            if len(bad) < 3:
+                bad.append(m)
+    ctx.coverage["cutvalue_frames"] = tried
+    ctx.coverage["cutvalue_frames_accepted_by_decoder"] = accepted
+    if bad:
+        rig = S.Rig()
+        try:
+            snap = setup_base(rig)
+            for m in bad:
+                case = {"frames": [m.hex()], "labels": ["mut:cutvalue"], "chunkings": ["whole", "whole"]}
+                for sig, what in run_case(rig, snap, case, random.Random(1)):
+                    ctx.report(sig, what, {"kind": "session", "case": {k: case[k] for k in case if k in
+                                                                       ("frames", "events", "labels")}})
+        finally:
+            rig.close()
+    return tried
 
 
 def search(ctx, broken, budget=None):
